@@ -62,7 +62,10 @@ theorem condHolds_iff (P : Params) (ev : PJ) (ctx : Ctx) (c : Cond) :
     cases lookupStr ev keyContentBody with
     | none => simp
     | some v =>
-      simp only [wordMatchDecide_iff]
+      have hd : Ruma.Spec.Glob.containsWordDecide P.lower ctx.displayName v = true ↔
+          Ruma.Spec.Glob.containsWordMatches P.lower ctx.displayName v :=
+        Ruma.Spec.Glob.literalWordDecide_iff _ _
+      simp only [hd]
       constructor
       · intro h; exact ⟨_, rfl, h⟩
       · rintro ⟨v', hv, h⟩; cases hv; exact h
